@@ -444,10 +444,10 @@ func TestC18(t *testing.T) {
 // ---- gRPC mapping
 
 type fakeStream struct {
-	ctx    context.Context
-	reqs   []*pb.SessionRequest
-	i      int
-	resps  []*pb.SessionResponse
+	ctx   context.Context
+	reqs  []*pb.SessionRequest
+	i     int
+	resps []*pb.SessionResponse
 }
 
 func (f *fakeStream) Recv() (*pb.SessionRequest, error) {
@@ -458,12 +458,12 @@ func (f *fakeStream) Recv() (*pb.SessionRequest, error) {
 	return f.reqs[f.i-1], nil
 }
 func (f *fakeStream) Send(r *pb.SessionResponse) error { f.resps = append(f.resps, r); return nil }
-func (f *fakeStream) SetHeader(metadata.MD) error       { return nil }
-func (f *fakeStream) SendHeader(metadata.MD) error      { return nil }
-func (f *fakeStream) SetTrailer(metadata.MD)            {}
-func (f *fakeStream) Context() context.Context          { return f.ctx }
-func (f *fakeStream) SendMsg(m any) error               { return nil }
-func (f *fakeStream) RecvMsg(m any) error               { return nil }
+func (f *fakeStream) SetHeader(metadata.MD) error      { return nil }
+func (f *fakeStream) SendHeader(metadata.MD) error     { return nil }
+func (f *fakeStream) SetTrailer(metadata.MD)           {}
+func (f *fakeStream) Context() context.Context         { return f.ctx }
+func (f *fakeStream) SendMsg(m any) error              { return nil }
+func (f *fakeStream) RecvMsg(m any) error              { return nil }
 
 func grpcMapping(t *testing.T, r *ev.Run, rng *rand.Rand) {
 	crypto := aead.NewAES256GCM()
